@@ -161,6 +161,28 @@ def run(F, R, tier):
                 if d[0] == "let" and any(callee_matches(x, ["ModuleGraph::resolve"]) for x in walk(d[1])):
                     ok = True
         R.ob("C19-c", "reload targets the redirect-resolved specifiers", ok, "reload no longer resolves redirects of the requested specifiers", rl["file"])
+        # every value the mapping yields is the resolved specifier (the requested
+        # one only where both are equal)
+        for rs in [x for x in rl["_nodes"] if callee_matches(x, ["ModuleGraph::resolve"])]:
+            clos = [a for a in k_ancestors(rs) if a.get("k") == "Closure"]
+            if not clos:
+                continue
+            cl = clos[0]
+            plids = {b_["lid"] for p_ in cl["body"]["params"] for b_ in (pat_bindings(p_) if p_.get("k") == "Pat" else [p_]) if b_.get("lid") is not None}
+            vals = []
+            _tail_values(F, cl["body"]["value"], vals)
+            for v in vals:
+                pv = peel_value(v)
+                from_resolve = any(y is rs or is_within(rs, y) for y in through_locals(pv))
+                same = False
+                if pv.get("lid") in plids:
+                    for x in guards_at(F, v, stop_at=cl):
+                        if x.kind == "cond" and x.pol and x.node.get("k") == "Binary" and x.node["op"] == "==":
+                            sides = [peel_value(x.node["l"]), peel_value(x.node["r"])]
+                            if any(sd.get("lid") in plids for sd in sides) and any(any(y is rs or is_within(rs, y) for y in through_locals(sd)) for sd in sides):
+                                same = True
+                R.ob("C19-c", "reload maps every requested specifier to its redirect-resolved form", from_resolve or same,
+                     "the reload mapping yields `%s`, which is not the result of graph.resolve(..) (nor the requested specifier under `resolved == requested`): a reloaded alias evicts and reloads the wrong entry" % expr_text(v)[:40], where(v))
     for l in [s_ for s_ in rl["_nodes"] if s_.get("k") == "Struct" and s_.get("adt") == "graph::LoadOptionsRef"]:
         f = {x["name"]: peel(x["e"]) for x in l["fields"]}
         R.ob("C19-c", "a reloaded specifier is loaded like a root (no referrer, is_root)", f["is_root"].get("v") is True and ctor_of(f["maybe_range"]) == "std::option::Option::None" and ctor_of(f["maybe_attribute_type"]) == "std::option::Option::None",
